@@ -132,6 +132,11 @@ def environment(n, h, alpha):
     operation of the history speaks about (else it rotates).'''
     if n % 4 == 3:
         return {'targets': [], 'regs': [], 'runmap': {}}
+    adds = len(h) <= 3 and any(e['ev'] == 'AddTarget' for e in h)
+    if adds and n % 2 == 0:
+        # a short history that adds a target itself starts on an empty database: explicitly added targets
+        # (db.add) and targets first seen by an update are then numbered side by side
+        return {'targets': [], 'regs': [], 'runmap': RUNMAPS[(n // 4) % len(RUNMAPS)]}
     last = next((e for e in reversed(h) if e['ev'] in ('Reset', 'Remove', 'Trace') and e['a']), None)
     rot = n // 4
 
@@ -154,7 +159,8 @@ def environment(n, h, alpha):
     fill = [{'task': f'Q{i:02d}', 'a': f'F{i:02d}', 'av': 10000, 's': 'g', 'sv': 10000, 'v': 'w', 'vv': 10000} for i in range(FILLERS)]
     gt = [f'G{i:02d}' for i in range(FILLERS)]
     return {
-        'targets': gt[:1] + tgts[:1] + gt[1:-1] + tgts[1:],
+        # ... and leaves every target to be registered by the history itself if it adds one
+        'targets': [] if adds else gt[:1] + tgts[:1] + gt[1:-1] + tgts[1:],
         'regs': fill[:1] + model[:1] + fill[1:-1] + model[1:],
         'runmap': RUNMAPS[rot % len(RUNMAPS)],
     }
